@@ -19,7 +19,7 @@ func init() {
 			"R2 the sender never returns with the flag set, observes the queue after its last release on every path, and after observing it non-empty always attempts the CAS before returning; " +
 			"R3 the sender's deferred recover releases the flag before closing; R4 transport.Flush lies between every Writev and the release, and every synchronous write is followed by Flush on its success branch; " +
 			"R5 every access to the flag is atomic and fits one of the protocol roles. " +
-			"DOES NOT DECIDE: that Executor.Exec eventually runs the action, that transport.Writev terminates, fairness; the argument 'R1 and R2 imply no stranded packet' is the standard hand-written one (DESIGN.md C02), not model-checked.",
+			"ALSO: the Executors the library ships start their action with a go statement on every path (R9, shared with C18). DOES NOT DECIDE: that a user-supplied Executor or the Go scheduler eventually runs the action, that transport.Writev terminates, fairness; the argument 'R1 and R2 imply no stranded packet' is the standard hand-written one (DESIGN.md C02), not model-checked.",
 		Assumptions: []string{"Executor.Exec eventually runs the action it is given", "transport.Writev/Flush return"},
 		Run:         runC02,
 	})
